@@ -8,12 +8,15 @@ import json, os, random, shutil, subprocess, tempfile
 from concurrent.futures import ThreadPoolExecutor
 from multiprocessing import Pool
 from . import common as C
-from . import asa, ios, linux
+from . import asa, ios, linux, panos, nsx
 
 DEV = os.path.join(C.SPECS, "dev")
 
 DIALECTS = {
     "asa": dict(mod=asa, model="ASA", gen="AsaGen", trace="AsaTrace"),
+    "nsx": dict(mod=nsx, model="NSX", gen="NsxGen", trace="NsxTrace", maps=("policies", "groups", "services")),
+    "panos": dict(mod=panos, model="PAN-OS", gen="PanosGen", trace="PanosTrace",
+                  maps=("addrs", "groups", "svcs", "sgroups")),
     "linux": dict(mod=linux, model="Linux", gen="LinuxGen", trace="LinuxTrace", maps=("tables",)),
     "ios": dict(mod=ios, model="IOS", gen="IosGen", trace="IosTrace", maps=("acls", "intfs")),
 }
